@@ -28,7 +28,7 @@ def run(ctx):
     return ctx.finish(
         rule="every file emitted by the real writer for the C01 generator is decoded by the independent decoder and validated rule by rule; distinct = distinct (content, configuration) hashes",
         evaluations=s.get("c09.files_validated", 0),
-        floors={"c09.files_validated": 2500, "c09.multi_block_files": 200, "c09.separators_checked": 2000, "c09.separators_shortened": 200,
+        floors={"gen.models_with_separator_pairs": 200, "c09.files_validated": 2500, "c09.multi_block_files": 200, "c09.separators_checked": 2000, "c09.separators_shortened": 200,
                 "c09.rule.block_closed_only_at_limit": 2000, "c09.rule.multi_entry_block_within_size": 2000, "c09.rule.restart_cadence": 50000,
                 "c09.multibyte_shared_varint": 50, "c09.multibyte_vlen_varint": 200, "c09.single_entry_blocks": 50, "c09.files_with_foreign_prefix": 100, "bigblock.restart_width.32": 1,
                 **({"bigblock.restart_width.64": 2, "bigblock.cases": 4} if th else {})},
